@@ -83,6 +83,53 @@ func checkC07(c *core.Ctx) {
 			}
 		}
 	}
+	// two expansions in a row: src -> t1 (explicit Broadcast, factor 1 included) -> t2 (explicit, or implicit
+	// through an operation with a partner of shape t2, the intermediate as receiver or as argument): the
+	// source AND the intermediate get their gradients (gradCase judges every tensor of the program)
+	for _, t2 := range enum.Shapes(3, []int{1, 2, 3}) {
+		if len(t2) == 0 {
+			continue
+		}
+		for _, t1 := range enum.BroadcastSources(t2) {
+			for _, src := range enum.BroadcastSources(t1) {
+				for form := 0; form < 4; form++ {
+					if ref.Size(t1) == ref.Size(t2) && ref.SameShape(t1, t2) {
+						continue
+					}
+					if !c.Thorough() && (len(t2)+len(t1)+len(src)+form)%2 == 1 {
+						continue
+					}
+					t2, t1, src, form := t2, t1, src, form
+					c.Case(fmt.Sprintf("twolevel/%v->%v->%v/f%d", src, t1, t2, form), true, func() core.Verdict {
+						p := &ref.Program{Leaves: []*ref.T{enum.Generic(src, 210, 0.5, 3, true)}, Tracked: []bool{true}}
+						switch form {
+						case 0:
+							p.Nodes = []ref.Node{{Op: ref.Op{K: "Broadcast", Shape: t1}, In: []int{0}}, {Op: ref.Op{K: "Broadcast", Shape: t2}, In: []int{1}}}
+						default:
+							p.Leaves = append(p.Leaves, enum.Generic(t2, 211, 0.5, 3, true))
+							p.Tracked = append(p.Tracked, form == 3)
+							h := 2
+							k := []string{"", "Mul", "Add", "Div"}[form]
+							in := []int{h, 1}
+							if form == 2 {
+								in = []int{1, h}
+							}
+							p.Nodes = []ref.Node{{Op: ref.Op{K: "Broadcast", Shape: t1}, In: []int{0}}, {Op: ref.Op{K: k}, In: in}}
+						}
+						if _, ok := p.Forward(); !ok {
+							return core.Skip()
+						}
+						q, root := withWeighting(p, p.NTensors()-1, 13)
+						v := gradCase(q, root, gradOpts{allowKF: true})
+						if !v.OK && !v.Skip && v.KF == "" {
+							v.Detail = describeProgram(q) + " :: " + v.Detail
+						}
+						return v
+					})
+				}
+			}
+		}
+	}
 	targets = append(targets, []int{5}, []int{2, 4}, []int{4, 1, 5}, []int{33}, []int{3, 7}, []int{4}, []int{8}, []int{16, 2}, []int{2, 1, 2, 1, 2}, []int{1, 2, 1, 2, 1, 2})
 	for _, t := range targets {
 		if c.Expired() {
